@@ -290,3 +290,60 @@ fn patch_blend_case(pm: u8) {
     kani::cover!(is_alpha_ch, "the alpha channel named by the blend info");
     kani::cover!(!is_alpha_ch && clamp, "colour channel with clamping");
 }
+
+// @prop C05
+// @tier quick
+// @unit jxl_render::blend::patch (rectangle arithmetic between patch target, canvas region and reference region) + blend_single Replace
+// @sym patch target position x in -2..=4, y in -2..=2 (partly or wholly outside the 4x2 canvas), reference origin x0 0..=2, y0 0..=1, patch size 1..=2 x 1..=2 inside the 4x2 reference frame; one probed canvas pixel
+// @bound 4x2 canvas and reference, one colour channel, one target, Replace mode (the rectangle arithmetic does not depend on the mode)
+// @oblig every canvas pixel covered by the patch target receives reference sample (x0 + px - x, y0 + py - y); every other canvas pixel is unchanged; nothing panics for targets cut by any edge
+#[kani::proof]
+#[kani::unwind(3)]
+pub fn c05_patch_rectangle_arithmetic() {
+    use jxl_frame::data::{PatchRef, PatchTarget};
+    use jxl_grid::AlignedGrid;
+    use jxl_render::{ImageBuffer, Region};
+    let ih = ImageHeader { size: SizeHeader::default_with_context(()), metadata: ImageMetadata::default_with_context(()) };
+    let mut base = jxl_render::verif::empty_image(1);
+    base.append_channel(
+        ImageBuffer::F32(AlignedGrid::verif_from_vec(4, 2, vec![100.0, 101.0, 102.0, 103.0, 110.0, 111.0, 112.0, 113.0])),
+        Region::with_size(4, 2),
+    );
+    let mut reference = jxl_render::verif::empty_image(1);
+    reference.append_channel(
+        ImageBuffer::F32(AlignedGrid::verif_from_vec(4, 2, vec![200.0, 201.0, 202.0, 203.0, 210.0, 211.0, 212.0, 213.0])),
+        Region::with_size(4, 2),
+    );
+    let (x, y): (i32, i32) = (kani::any(), kani::any());
+    kani::assume(x >= -2 && x <= 4 && y >= -2 && y <= 2);
+    let (x0, y0, w, h): (u32, u32, u32, u32) = (kani::any(), kani::any(), kani::any(), kani::any());
+    kani::assume(w >= 1 && w <= 2 && h >= 1 && h <= 2 && x0 + w <= 4 && y0 + h <= 2);
+    let patch_ref = PatchRef {
+        ref_idx: 0,
+        x0,
+        y0,
+        width: w,
+        height: h,
+        patch_targets: vec![PatchTarget { x, y, blending: vec![BlendingModeInformation { mode: PatchBlendMode::Replace, alpha_channel: 0, clamp: false }] }],
+    };
+    let r = bf::patch(&ih, &mut base, &reference, &patch_ref);
+    assert!(r.is_ok());
+    let (px, py): (i32, i32) = (kani::any(), kani::any());
+    kani::assume(px >= 0 && px < 4 && py >= 0 && py < 2);
+    let got = base.buffer()[0].as_float().unwrap().get(px as usize, py as usize);
+    let (dx, dy) = (px - x, py - y);
+    let want = if dx >= 0 && dx < w as i32 && dy >= 0 && dy < h as i32 {
+        200.0 + (10 * (y0 as i32 + dy) + x0 as i32 + dx) as f32
+    } else {
+        100.0 + (10 * py + px) as f32
+    };
+    assert!(got == want);
+    kani::cover!(x < 0 && dx >= 0 && dx < w as i32 && dy >= 0 && dy < h as i32, "pixel of a patch cut by the left edge");
+    kani::cover!(y < 0 && dx >= 0 && dx < w as i32 && dy >= 0 && dy < h as i32, "pixel of a patch cut by the top edge");
+    kani::cover!(x == 4, "patch wholly outside");
+    core::mem::forget(r);
+    core::mem::forget(patch_ref);
+    core::mem::forget(base);
+    core::mem::forget(reference);
+    core::mem::forget(ih);
+}
